@@ -74,3 +74,39 @@ def oracle(req, impl, build):
         if len(toks["b"]) != 2 * want:
             return "wrong number of bytes"
     return None
+
+
+def extra(binary, build, tier, rng):
+    """model-independent oracle for the word-based generators: a fill of n bytes is exactly the first n bytes of the
+    little-endian serialisation of the successive next_u64 outputs from the same state, at every start offset"""
+    n = 400 if tier == "quick" else 8000
+    cases = []
+    for _ in range(n):
+        gen = rng.choice(["xoshiro", "splitmix", "wyrand"])
+        seed = rng.edge64()
+        pre = [rng.choice(["u32", "u64", "fill:3", "fill:8", "jump"]) for _ in range(rng.below(3))]
+        nbytes = length(rng)
+        off = rng.below(16)
+        api = rng.choice(["fill_bytes", "read", "read_exact", "fill_bytes_uninit"])
+        cases.append((gen, seed, pre, nbytes, off, api))
+    reqs = []
+    for gen, seed, pre, nbytes, off, api in cases:
+        reqs.append("fillb gen=%s seed=%d api=%s elem=u8 off=%d count=%d pre=%s" % (gen, seed, api, off, nbytes, ",".join(pre)))
+        reqs.append("word gen=%s seed=%d via=from_seed ops=%s" % (gen, seed, ",".join(pre + ["u64"] * ((nbytes + 7) // 8 + 1))))
+    rc, res, err = C.run_lines(binary, ["run"], reqs)
+    for k, (gen, seed, pre, nbytes, off, api) in enumerate(cases):
+        fr, wr = res[2 * k], res[2 * k + 1]
+        if fr == "panic" or wr == "panic":
+            continue
+        ft = dict(t.split(":", 1) for t in fr.split())
+        words = [int(t) for t in wr.split()[len(pre):] if t.isdigit()]
+        want = b"".join(w.to_bytes(8, "little") for w in words)
+        got = bytes.fromhex(ft["b"])
+        if got != want[:nbytes]:
+            i = next(j for j in range(nbytes) if got[j:j + 1] != want[j:j + 1])
+            yield {"kind": "oracle", "build": build, "request": reqs[2 * k], "impl": fr[:300], "model": wr[:300],
+                   "oracle": "the %d-byte fill is not the little-endian serialisation of the successive next_u64 outputs from the same state (first difference at byte %d; start offset %d)" % (nbytes, i, off)}
+        elif ft.get("next") != str(words[(nbytes + 7) // 8]):
+            yield {"kind": "oracle", "build": build, "request": reqs[2 * k], "impl": fr[:300], "model": wr[:300],
+                   "oracle": "after the %d-byte fill the generator is not exactly ceil(n/8) words further (a word was skipped or drawn twice)" % nbytes}
+    yield {"kind": "count", "what": "le-word-stream-checks", "n": len(cases)}
